@@ -14,7 +14,9 @@ import Hive.Base.Proto
 * `dag N E` / `d T op obs…` — the same for `DAGMutex` against `Hive.SyncMutex.Dag.sys` (abstract per-entity
   locks); `dagc N E` selects `Hive.SyncMutex.Comp.sys` instead, the registry composed of StarvingMutex monitors
   (all micro-step interleavings).
-* `wm N v kind` / `w T op | obs…` — the same for the Counter/Stack monitor against `Hive.SyncMutex.Wait.sys`.
+* `wm N v kind` / `w T op | obs…` — the same for the Counter/Stack monitor against `Hive.SyncMutex.Wait.sys`;
+  `wg A B | obs…` is the arrival of `SignalShutdown` (B) while `PopOrWait` (A) is inside its wait-condition
+  callback.
 * `tr ev…` — exclusion predicate (`Excl`, the one `C17_exclusion`/`C17_dag_exclusion` are about) evaluated
   on a grant/release trace recorded under stress.
 * `seq sm|dag op…` — one goroutine, sequential calls: `ok`/`panic` per call (unlock-of-unheld matrix).
@@ -149,8 +151,11 @@ def wStatus (t : Wait.WTh) : Char :=
 def showRes (l : List Bool) : String :=
   if l.isEmpty then "-" else String.ofList (l.reverse.map (fun b => if b then '1' else '0'))
 
+/-- statuses, value, per goroutine the pop results and the answers its `waitCondition` callback gave -/
 def wObs (c : Cfg Wait.Mon Wait.WTh) : String :=
   String.ofList (c.2.map wStatus) ++ " " ++ toString c.1.value ++ " " ++ " ".intercalate (c.2.map (fun t => showRes t.res))
+    ++ " " ++ " ".intercalate (c.2.map (fun t => showRes t.cb))
+
 
 def parseWOp : List String → Option Wait.WOp
   | ["add", d] => d.toInt?.map .add
@@ -166,6 +171,25 @@ def wArrive (c : Cfg Wait.Mon Wait.WTh) (i : Nat) (op : Wait.WOp) : Option (Cfg 
   match c.2[i]? with
   | some t => if t.pc = .idle ∧ t.script = [] then some (c.1, c.2.set i { t with script := [op] }) else none
   | none => none
+
+/-- first successor of goroutine `i` whose new state satisfies `pick` -/
+def stepThread (c : Cfg Wait.Mon Wait.WTh) (i : Nat) (pick : Wait.WTh → Bool) : Option (Cfg Wait.Mon Wait.WTh) :=
+  match c.2[i]? with
+  | none => none
+  | some t =>
+    match (Wait.step c.1 t).find? (fun p => pick p.2) with
+    | some p => some (p.1, c.2.set i p.2)
+    | none => none
+
+/-- The shutdown-in-the-callback scenario: goroutine `a` calls `PopOrWait` on an empty stack and is inside its
+`waitCondition` callback (which will answer true) — still holding the lock, program point `critW` — when
+goroutine `b` calls `SignalShutdown`. -/
+def wGapStart (c : Cfg Wait.Mon Wait.WTh) (a b : Nat) : Option (Cfg Wait.Mon Wait.WTh) := do
+  let c1 ← wArrive c a .popOrWait
+  let c2 ← stepThread c1 a (fun _ => true)                 -- the call starts
+  let c3 ← stepThread c2 a (fun _ => true)                 -- takes the lock
+  let c4 ← stepThread c3 a (fun t => t.pc == .critW)       -- empty stack, the callback says "wait"
+  wArrive c4 b .shutdown
 
 /-- Generations are unbounded counters that do not matter for equality of futures once nobody is parked
 with an old one; keeping them in the key is sound (only less sharing). -/
@@ -369,6 +393,15 @@ def stepLine (st : St) (toks : List String) : St × String :=
     match st, i.toNat?, parseWOp opToks with
     | .wm cs, some i, some op =>
       let starts := cs.filterMap (fun c => wArrive c i op)
+      let (outs, complete) := quiescentFrom Wait.sys wKey starts
+      let (ok, ans) := answer wObs (" ".intercalate obs) (dedupBy wKey outs []) complete
+      (.wm ok, ans)
+    | _, _, _ => (st, "bad-op")
+  | "wg" :: a :: b :: rest =>
+    let obs := (rest.dropWhile (· != "|")).drop 1
+    match st, a.toNat?, b.toNat? with
+    | .wm cs, some a, some b =>
+      let starts := cs.filterMap (fun c => wGapStart c a b)
       let (outs, complete) := quiescentFrom Wait.sys wKey starts
       let (ok, ans) := answer wObs (" ".intercalate obs) (dedupBy wKey outs []) complete
       (.wm ok, ans)
